@@ -36,6 +36,7 @@ func init() {
 	evals["tlssmoke"] = evalTLSSmoke
 	evals["hs"] = evalHS
 	evals["hspol"] = evalHSPol
+	evals["hsrot"] = evalHSRot
 	evals["gmdecode"] = func(args []string) string { return "ok" }
 	gens["C06"] = genC06
 }
@@ -328,6 +329,38 @@ func evalHSPol(args []string) string {
 	sh.srv = buildServer(p)
 	sh.srv.SessionTicketKey = sessionTicketTestKey
 	return hspolNorm(hsOnce(p, sh), auth2)
+}
+
+// hsrot <the 11 arguments of hs, tickets on> : a first connection, then the server's ticket keys are rotated
+// (new key first, the old one kept for decryption), then the same client again - it offers the ticket sealed under
+// the old key, the server resumes or not and issues a fresh ticket -, then a third connection offering that one.
+// Printed: the verdict of the third connection if all three agree, which is what one connection under this
+// configuration gives.
+func evalHSRot(args []string) string {
+	p, ok := parseHS(args)
+	if !ok || p.mode == "std" || !p.tickets {
+		return "bad-op"
+	}
+	sh := &hsShared{cache: gmtls.NewLRUClientSessionCache(4)}
+	sh.srv = buildServer(p)
+	k0, k1 := ticketKey(41), ticketKey(42)
+	sh.srv.SetSessionTicketKeys([][32]byte{k0})
+	first := hsOnce(p, sh)
+	if strings.HasPrefix(first, "ORACLE-FAIL") {
+		return first + ":first-connection"
+	}
+	sh.srv.SetSessionTicketKeys([][32]byte{k1, k0})
+	p.seed++
+	second := hsOnce(p, sh)
+	if second != first {
+		return "ORACLE-FAIL:after-key-rotation:" + strings.ReplaceAll(second, " ", "_")
+	}
+	p.seed++
+	third := hsOnce(p, sh)
+	if third != first {
+		return "ORACLE-FAIL:with-the-reissued-ticket:" + strings.ReplaceAll(third, " ", "_")
+	}
+	return first
 }
 
 // under a policy that does not REQUIRE a client certificate (0, 1, 3) a resumed session may legitimately show
@@ -706,6 +739,12 @@ func genC06(r *rng, tier string, emit func(string)) {
 					emit(fmt.Sprintf("hspol %s %s %s %s 0 %d %d s 1 r %x:10:10:1000 %d", mode, client, suites, suites, a1, cc, r.u64(), a2))
 				}
 			}
+		}
+	}
+	// ticket-key rotation between connections of one client, explicit suite lists (so that tickets are resumed)
+	for _, cfg := range []string{"gm gm e013 e013", "gm gm e053 e053", "tls tls12 9c 9c", "tls tls12 c02f c02f", "auto gm e013 e013", "auto tls12 9c 9c"} {
+		for _, ac := range []string{"0 0", "4 1", "1 1", "3 1", "1 0"} {
+			emit(fmt.Sprintf("hsrot %s 0 %s s 1 r %x:10:10:1000", cfg, ac, r.u64()))
 		}
 	}
 	// wire captures of real GMSSL connections for the independent decoder
